@@ -19,7 +19,9 @@ theorem xdoc_rej (lc : Libc) (hl : LibcSpec lc) : ∀ x, XRej lc x := by
   | hstr q items =>
     intro t l cur rest hwf hs hv hhs hl0 hst hok _ _ _ hnp c off rs
     cases q with
-    | dq => simp [XDoc.plain] at hnp
+    | dq =>
+      have hbad : items.all StrItem.ok = false := by simpa [XDoc.plain] using hnp
+      exact strict_ctl_string_err lc t l hwf hv hhs hst cur none rest hs items (by simpa [XDoc.ok] using hok) hbad c off rs
     | sq => exact sq_value_err lc t l hv hst cur none rest hs c off _
   | harr g es tr ih =>
     intro t l cur rest hwf hs hv hhs hl0 hst hok hfit hknf hdepth hnp c off rs
